@@ -384,6 +384,43 @@ Theorem C20_vle_routes : forall eq feed rowg rowl,
 Proof. exact vle_routes_lemma. Qed.
 Print Assumptions C20_vle_routes.
 
+(* ---- state kept between calls: a caller-owned multi_stream that is reused *)
+(* whatever the multi_stream held before the call (ms0), the wrappers behave as with an empty one *)
+Theorem C20_lle_multi_stream_history_independent : forall rho eqr extra (ms0 ms0' : list vec) k feed top0 bot0 topchem eff,
+  length ms0 = length ms0' ->
+  lle_ms rho eqr extra ms0 k feed top0 bot0 topchem eff = lle_ms rho eqr extra ms0' k feed top0 bot0 topchem eff.
+Proof. exact lle_ms_history_independent. Qed.
+Print Assumptions C20_lle_multi_stream_history_independent.
+Theorem C20_vle_multi_stream_history_independent : forall eqr (ms0 ms0' : list vec) k feed,
+  length ms0 = length ms0' -> vle_ms eqr ms0 k feed = vle_ms eqr ms0' k feed.
+Proof. exact vle_ms_history_independent. Qed.
+Print Assumptions C20_vle_multi_stream_history_independent.
+
+(* the equilibrium call is handed exactly the feed: the rows it sees add up to the feed *)
+Theorem C20_multi_stream_holds_feed : forall ms0 k feed i, (k < length ms0)%nat ->
+  colsum (ms_after_copy ms0 k feed) i == nthq feed i.
+Proof. exact ms_after_copy_total. Qed.
+Print Assumptions C20_multi_stream_holds_feed.
+
+(* hence with ANY equilibrium call that conserves the material it is given, the outlets add up to the feed, for every
+   previous content of the multi_stream, efficiency, density function and top_chemical *)
+Theorem C20_lle_multi_stream_conserves : forall rho eqr extra ms0 k feed top0 bot0 topchem eff,
+  eq_conserves (length feed) eqr -> (k < length ms0)%nat ->
+  let r := lle_ms rho eqr extra ms0 k feed top0 bot0 topchem eff in
+  e_err r = None ->
+  forall i, nthq (e_top r) i + nthq (e_bot r) i == nthq feed i.
+Proof. exact lle_ms_conserves_lemma. Qed.
+Print Assumptions C20_lle_multi_stream_conserves.
+Theorem C20_vle_multi_stream_conserves : forall eqr ms0 k feed,
+  eq_conserves (length feed) eqr -> (k < length ms0)%nat ->
+  forall i, nthq (fst (vle_ms eqr ms0 k feed)) i + nthq (snd (vle_ms eqr ms0 k feed)) i == nthq feed i.
+Proof. exact vle_ms_conserves_lemma. Qed.
+Print Assumptions C20_vle_multi_stream_conserves.
+(* the contract is satisfiable: the harness' relative stub is such a call *)
+Theorem C20_eq_rel_conserves : forall n s, length s = n -> eq_conserves n (eq_rel n s).
+Proof. exact eq_rel_conserves. Qed.
+Print Assumptions C20_eq_rel_conserves.
+
 (* ------------------------------------------------------------------ phase_split *)
 (* each phase goes to its own outlet, unchanged (hence the outlets add up to the feed); a wrong number of
    outlets is a RuntimeError *)
@@ -396,6 +433,25 @@ Theorem C20_phase_split_error : forall rows outs0 e,
   phase_split rows outs0 = Err e -> e = ERuntime /\ length outs0 <> length rows.
 Proof. exact phase_split_err_lemma. Qed.
 Print Assumptions C20_phase_split_error.
+
+(* over histories of the feed object (per-phase views fetched and cached, earlier splits, flows rewritten through
+   feed.imol, phase set changed): every cached view points at the current indexer (invariant views_ok), so each outlet
+   receives the CURRENT flows of its phase, and the outlets are exactly the rows feed.imol shows *)
+Theorem C20_views_current_after_any_history : forall n present rows ops s,
+  mrun n (minit present rows) ops = Ok s -> views_ok s /\ forall p, view_read s p = nthv (ms_rows s) p.
+Proof.
+  intros n present rows ops s R.
+  pose proof (mrun_views_ok n _ ops s (views_ok_init present rows) R) as V.
+  split; [exact V|]. intros p. apply view_read_current. exact V.
+Qed.
+Print Assumptions C20_views_current_after_any_history.
+
+Theorem C20_phase_split_after_history : forall n present rows ops outs0 outs current,
+  phase_split_hist n present rows ops outs0 = Ok (outs, current) ->
+  outs = current /\ exists s, mrun n (minit present rows) ops = Ok s /\
+     current = map (nthv (ms_rows s)) (present_phases s) /\ length outs0 = length (present_phases s).
+Proof. exact phase_split_hist_lemma. Qed.
+Print Assumptions C20_phase_split_after_history.
 
 (* ------------------------------------------------------------------ chemical_splits *)
 (* split * mixed = first stream wherever mixed is not zero, under both division rules *)
@@ -526,6 +582,20 @@ Example C20_ex_lle :
   e_err r = None /\ vapproxb (e_top r) [1; 3 # 2] = true /\ vapproxb (e_bot r) [1; 5 # 2] = true /\
   e_err (lle_wrap rho (fun _ => ([1; 1], [1; 3])) 1 [2; 4] [0; 0] [9; 9] false (1 # 2)) = Some EValue.
 Proof. qc. Qed.
+
+(* view of 'l' cached, phases 'gl' -> 'Lgl', new flows written to 'l': the split sees the new flows *)
+Example C20_ex_phase_split_history :
+  pairvl_approxb
+    (phase_split_hist 2 [false; true; true; false] [[0; 0]; [1; 0]; [0; 2]; [0; 0]]
+       [MView 2; MPhases [true; true; true; false]; MSet 2 [3; 1]] [[9; 9]; [9; 9]; [9; 9]])
+    (Ok ([[0; 0]; [1; 0]; [3; 1]], [[0; 0]; [1; 0]; [3; 1]])) = true.
+Proof. reflexivity. Qed.
+
+(* reused multi_stream (it still holds [5;5] and [7;0]) with a conserving equilibrium: outlets add up to the feed *)
+Example C20_ex_multi_stream_reused :
+  let r := vle_ms (eq_rel 2 [1 # 2; 1 # 4]) [[5; 5]; [7; 0]] 1 [2; 4] in
+  pair_approxb r [1; 1] [1; 3] = true /\ (1 < length [[5; 5]; [7; 0]])%nat.
+Proof. split; [reflexivity|simpl; lia]. Qed.
 
 Example C20_ex_phase_split :
   phase_split [[1; 0]; [0; 2]] [[5; 5]; [6; 6]] = Ok [[1; 0]; [0; 2]] /\
